@@ -175,6 +175,18 @@ class DictionaryDataBase(DataBase):
                     return True
             return False
 
+    def remove_by_id(self, index: int) -> bool:
+        """
+        Remove the data stored under a given index, returns a boolean stating if something has been removed.
+
+        Parameters
+        ----------
+        index : int
+            Index of the data to be removed.
+        """
+        with self._lock:
+            return self.database.pop(index, None) is not None
+
     def all(self) -> tuple:
         """
         Get all data from the database.
